@@ -147,7 +147,89 @@ def rule_shared_table_scope(chk, fb):
             n += 1
 
 
+def rule_table_valid(chk, fb, rid="C03.f"):
+    """The table reader keeps a table only if `is_ok()`: that predicate must accept every table the standard allows - a
+    name and an area whose corners are cells (>= 1) with start <= end on both axes; a one-column or one-row table
+    (start == end) is a table."""
+    import itertools
+    from props.C08 import bool_formula, eval_formula, atoms_of
+    import hirq
+
+    r = chk.rule(
+        rid,
+        "a loaded table is dropped only if it is not one: the validity predicate the table reader applies, as a boolean function of its comparisons, equals `names non-empty AND all four corner components >= 1 AND start <= end on both axes` on every order type of the corners (components 0..2)",
+        floor=1,
+    )
+    d = "structs::table::Table::is_ok"
+    h = fb.hir.get(d)
+    if not h:
+        chk.ob(r, "anchor", False, detail="Table::is_ok not found")
+        return
+    body = hirq.strip(h["body"])
+    while body.get("k") == "block" and not body.get("stmts") and body.get("expr"):
+        body = hirq.strip(body["expr"])
+
+    def term(n):
+        n = hirq.strip(n)
+        while n.get("k") == "ref":
+            n = hirq.strip(n["e"])
+        if n.get("k") == "lit" and n.get("lt") == "int":
+            return ("lit", n["v"])
+        if n.get("k") == "mcall" and n.get("name") in ("get_col_num", "get_row_num"):
+            rc = hirq.strip(n["recv"])
+            if rc.get("k") == "field" and rc.get("name") in ("0", "1"):
+                return ("corner", int(rc["name"]), "col" if "col" in n["name"] else "row")
+        return None
+
+    def atom(n):
+        n = hirq.strip(n)
+        if n.get("k") == "mcall" and n.get("name") == "is_empty":
+            rc = hirq.strip(n["recv"])
+            if rc.get("k") == "field":
+                return ("empty", rc["name"])
+        if n.get("k") == "bin" and n["op"] in ("==", "!=", "<", "<=", ">", ">="):
+            a, b_ = term(n["l"]), term(n["r"])
+            if a and b_:
+                return ("cmp", n["op"], a, b_)
+        return ("?", hirq.strip(n).get("ln"))
+
+    f = bool_formula(body, atom)
+    acc = set()
+    atoms_of(f, acc)
+    unknown = sorted(a for a in acc if a[0] == "?")
+    chk.touch(d)
+    if unknown:
+        # another shape (early returns, helper calls): nothing is claimed about it rather than guessing
+        chk.ob(r, "Table::is_ok", True, where=fb.loc(d), nontrivial=False, detail="NOT DECIDED: the predicate is not a single boolean combination of emptiness tests and corner comparisons (unrecognised parts at lines %s)" % [u[1] for u in unknown])
+        chk.note("C03.f: Table::is_ok has a shape the rule does not read; no verdict")
+        return
+    OPS = {"==": lambda x, y: x == y, "!=": lambda x, y: x != y, "<": lambda x, y: x < y, "<=": lambda x, y: x <= y, ">": lambda x, y: x > y, ">=": lambda x, y: x >= y}
+    bad = []
+    rows = 0
+    for c0, r0, c1, r1 in itertools.product((0, 1, 2), repeat=4):
+        for e_name, e_disp in itertools.product((False, True), repeat=2):
+            corner = {(0, "col"): c0, (0, "row"): r0, (1, "col"): c1, (1, "row"): r1}
+
+            def val(t):
+                return t[1] if t[0] == "lit" else corner[(t[1], t[2])]
+
+            env = {}
+            for a in acc:
+                if a[0] == "empty":
+                    env[a] = e_name if a[1] == "name" else e_disp
+                else:
+                    env[a] = OPS[a[1]](val(a[2]), val(a[3]))
+            got = bool(eval_formula(f, env))
+            names = {a[1] for a in acc if a[0] == "empty"}
+            want = (not (e_name and "name" in names)) and (not (e_disp and "display_name" in names)) and min(c0, r0, c1, r1) >= 1 and c0 <= c1 and r0 <= r1
+            rows += 1
+            if got != want:
+                bad.append(((c0, r0), (c1, r1), e_name, e_disp, got))
+    chk.ob(r, "Table::is_ok", not bad, where=fb.loc(d), detail="%d rows compared; %s" % (rows, "equal" if not bad else "differs, e.g. start (col,row)=%s end=%s: predicate says %s" % (bad[0][0], bad[0][1], bad[0][4])))
+
+
 def run(chk, fb, tier):
+    rule_table_valid(chk, fb)
     channels.rule_attr_unescape(chk, fb, "C03.a")
     rule_shared_formula(chk, fb)
     rule_values(chk, fb)
@@ -155,5 +237,6 @@ def run(chk, fb, tier):
     import symmetry
 
     symmetry.rule_enum_spec(chk, fb, "C03.d", "read")
+    symmetry.rule_collected_then_filed(chk, fb, "C03.e")
     chk.assume("the translation kernel itself is decided under C09.d")
     chk.note("not decided: agreement with an independent decoder on concrete files (value-level); style resolution is decided under C05.c")
